@@ -237,7 +237,7 @@ _ADD = {
  'C17': 'Also: a successor test at every power-of-two boundary of the counter; sibling instances (A issues an id, another instance issues 2^24-1, the next id of A must differ); handshakes presenting the cookie of an ended session or a forged one; accepted and rejected handshakes interleaved under a constant source. Handshake patterns with a shutdown() of the server in the middle.',
  'C18': 'The alphabet includes an upgrade attempt dropped before the accept and a server write that fails; sessions that either server has dropped for a timeout-class reason leave the comparison; histories in which two suspended handlers wake at the same instant are pruned from the sleepy pass. A silence pass: histories over a smaller alphabet with 20 s / 41 s waits, each followed by every client falling silent for ping_interval + 3 x ping_timeout, after which both servers must have dropped every session with the same events; a history in which exactly one server has dropped a silent session is compared but not extended. The alphabet includes disconnect() of everybody (while at most one session has not been ended by its client).',
  'C19': 'Each plain poll is followed by a POST and an OPTIONS with the same Accept-Encoding on the same server (their acknowledgements pass the same compression step); JSONP polls during an upgrade handshake (lone NOOP). Polls released with zero packets by the CLOSE the client posted carry the payload of zero packets. Sequences of refused POSTs with gzip / nothing / deflate on offer: each 400 decodes by its own headers. http_compression switched off on the running server. Groups with an inbound size limit below the compression threshold.',
- 'C20': 'All four slash spellings of each endpoint on every path of <= 2 segments; request sequences on one application object compared with a fresh application (history independence); repeated lifespan cycles. Names the file system rejects (300-character segment, embedded NUL, 4400-character path). The wrapped WSGI application answers with a one-shot iterator and the engineio.server logger is at INFO. Every path of <= 2 segments also as a WebSocket scope with a wrapped application.',
+ 'C20': 'All four slash spellings of each endpoint on every path of <= 2 segments; request sequences on one application object compared with a fresh application (history independence); repeated lifespan cycles. Names the file system rejects (300-character segment, embedded NUL, 4400-character path). The wrapped WSGI application answers with a one-shot iterator and the engineio.server logger is at INFO. Every path of <= 2 segments also as a WebSocket scope with a wrapped application. Without a wrapped application a WebSocket scope outside the endpoint is refused with websocket.close.',
 }
 for _p, _t in _ADD.items():
     CHECKS[_p]['text'] = CHECKS[_p]['text'].rstrip() + ' ' + _t
